@@ -394,10 +394,7 @@ theorem EncKind.S_agree (k : EncKind) (af : AF) {ν ν' : Asg} (h : ∀ a, a < a
 
 /-! ## world bookkeeping -/
 
-@[simp] theorem len_onClause (w : World) (s : Nat) (c : Clause) : (w.onClause s c).solvers.length = w.solvers.length := by
-  simp [World.onClause, World.upd]
-@[simp] theorem len_onSolve (w : World) (s : Nat) (a : List Lit) : (w.onSolve s a).solvers.length = w.solvers.length := by
-  simp [World.onSolve, World.upd]
+attribute [local simp] len_onClause len_onSolve
 @[simp] theorem len_onReply (w : World) (s : Nat) (r : Reply) : (w.onReply s r).solvers.length = w.solvers.length := rfl
 @[simp] theorem len_onNVars (w : World) (s : Nat) : (w.onNVars s).solvers.length = w.solvers.length := rfl
 
